@@ -288,3 +288,24 @@ Proof.
     + destruct p as [|b r]; [discriminate|]. apply andb_true_iff in Hm. destruct Hm as [Hb Hm]. apply N.eqb_eq in Hb. subst b.
       apply gmatch_starstar_py in Hm. destruct r as [|a r]; [congruence|]. reflexivity.
 Qed.
+
+(* an auto-loaded file below apps/ (or modules/) is the root file of its package: package widening keeps it forced *)
+Lemma auto_root_file t k s : In s (discover t k) -> sf_auto s = true -> under_roots widen_roots (sf_name s) = true ->
+  is_root_file s = true.
+Proof.
+  intros Hs Hau Hu. destruct (discover_entry_ok t k s Hs) as [_ _ (lp & Hlp & Hm & Hal & Hn & _) _ _].
+  rewrite Hau in Hal. apply load_paths_rows in Hlp. unfold lp_match in Hm.
+  destruct Hlp as [->|[->|[->|[->|[->|[->|[->| ->]]]]]]]; cbn [lp_auto] in Hal; try discriminate; cbn [lp_base lp_pat] in Hm, Hn.
+  - apply gmatch_starpy in Hm. destruct Hm as (y & Ep). rewrite Ep in Hn. rewrite Hn in Hu. discriminate.
+  - destruct (sf_path s) as [|b r] eqn:Ep; [discriminate|]. apply andb_true_iff in Hm. destruct Hm as [Hb Hm]. apply N.eqb_eq in Hb. subst b.
+    apply gmatch_star_init in Hm. destruct Hm as (a & ->). unfold is_root_file. rewrite Ep, Hn. cbn. rewrite !N.eqb_refl. reflexivity.
+  - destruct (sf_path s) as [|b r] eqn:Ep; [discriminate|]. apply andb_true_iff in Hm. destruct Hm as [Hb Hm]. apply N.eqb_eq in Hb. subst b.
+    apply gmatch_starpy in Hm. destruct Hm as (y & ->). unfold is_root_file. rewrite Ep, Hn.
+    destruct (y =? s_init)%N eqn:Ey.
+    + apply N.eqb_eq in Ey. subst y. rewrite Hn in Hu. discriminate.
+    + assert (E : strip_init [s_apps; y] = [s_apps; y]) by (unfold strip_init, ends_slash_init; cbn; rewrite Ey; reflexivity).
+      rewrite E. cbn [root2 firstn]. rewrite nl_eqb_refl. apply orb_true_r.
+  - destruct (sf_path s) as [|b r] eqn:Ep; [discriminate|]. apply andb_true_iff in Hm. destruct Hm as [Hb Hm]. apply N.eqb_eq in Hb. subst b.
+    apply gmatch_starstar_py in Hm. destruct (strip_init_head s_scripts r Hm) as (q & Eq). rewrite Eq in Hn. rewrite Hn in Hu.
+    destruct q; discriminate.
+Qed.
